@@ -137,11 +137,20 @@ def blackhole_scenario(args):
     cfg.update(rc=N, rto=rng.choice([100, 200, 500]), loss=0, dup=0, lat=rng.choice([1, 5, 30]), anyorder=False,
                ctrlA=rng.randint(0, 1), ctrlB=rng.randint(0, 1))
     one_way = rng.random() < 0.7
+    # a third of the sessions: a second, idle stream (no remote candidates ever) behind the black-holed one and an idle
+    # timeout shorter than the longer retransmission waits — the pacing timer must stay alive for the first stream
+    two_streams = rng.random() < 0.35
+    if two_streams:
+        one_way = False
+        cfg.update(ncomp=1, newargs=f" idle={rng.choice([150, 300, 600])}")
     s = None
     bad = []
     npairs = 0
     try:
         s = sc.start_session(exe, seed, cfg)
+        if two_streams:
+            for ag in "AB":
+                s.op(f"stream {ag} 1"); s.op(f"attach {ag} 2"); s.op(f"gather {ag} 2")
         s.op("net blackout A B 0 99999999")
         if not one_way:
             s.op("net blackout B A 0 99999999")
@@ -176,6 +185,13 @@ def blackhole_scenario(args):
                                              f"transmitted {count[last]} times, configured {N}"))
             if bad:
                 break
+        if two_streams and not bad:
+            # the black-holed stream's components must have been given up (FAILED announced), not left CONNECTING for ever
+            for ag in "AB":
+                q = simlib.parse_q(s.op(f"q {ag} 1 1")[1])
+                if q["state"] not in ("FAILED",):
+                    bad.append(("never-abandoned", f"agent {ag}: stream 1 component 1 is {q['state']} {t_end - 1000000} ms after the checks "
+                                                   f"began on a fully black-holed path (N={N}, rto={cfg['rto']} ms)"))
         return dict(seed=seed, bad=bad[:3], script=s.script, npairs=npairs, N=N, one_way=one_way)
     except simlib.SimDied as e:
         return dict(seed=seed, bad=[("crash", str(e)[-800:])], script=s.script if s else [], npairs=npairs, N=N, one_way=one_way)
